@@ -389,13 +389,13 @@ Definition g_static_nokey (g : tgraph) (ids : task -> positive) : bool :=
 Definition g_static_nocall (g : tgraph) : bool :=
   forallb (fun t => forallb (fun a => negb (has_call_tuple a)) (tinputs t)) (nodes g).
 
-(* the context-taking tasks of the workflow come after all the others (then insert_context does
-   not change the relative order of any two tasks) *)
+(* in no predecessor list does a context-taking task come before a task that takes no context
+   (insert_context moves the context-taking tasks behind all the others) *)
 Fixpoint ctx_last (l : list task) : bool :=
   match l with
   | [] => true
   | t :: tl => (if tctx t then forallb tctx tl else true) && ctx_last tl
   end.
-Definition g_ctx_order (g : tgraph) : bool := ctx_last (nodes g).
+Definition g_ctx_order (g : tgraph) : bool := forallb (fun t => ctx_last (pred g t)) (nodes g).
 
 Definition nodup_tids (l : list task) : bool := nodupp (map tid l).
